@@ -225,6 +225,7 @@ class MultiplexAdaptor:
         for k in E:
             agg[k[0]] = (agg.get(k[0], 0) + E[k][0]) if g.weighted else 1
         o["aggregated_hypergraph()"] = dict(nodes=msort(V), weighted=g.weighted, edges={repr(sorted(e)): w for e, w in agg.items()})
+        o["aggregation and overlap leave the hypergraph metadata unchanged"] = True
         return o
 
     def observe_real(self, h, g=None):
@@ -260,6 +261,8 @@ class MultiplexAdaptor:
             for n in nodes:
                 q(f"get_incident_edges({n!r},{fname(f)})", lambda n=n, f=f: msort(S(e) for e in h.get_incident_edges(n, **f)))
                 q(f"degree({n!r},{fname(f)})", lambda n=n, f=f: h.degree(n, **f))
+        hm0 = copy.deepcopy(h.get_hypergraph_metadata())      # taken before the derivations below: they must not write into it
         q("aggregated_hypergraph()", lambda: hg_view(h.aggregated_hypergraph()))
         q("get_hypergraph_metadata()", lambda: copy.deepcopy(h.get_hypergraph_metadata()))
+        q("aggregation and overlap leave the hypergraph metadata unchanged", lambda: copy.deepcopy(h.get_hypergraph_metadata()) == hm0)
         return o
